@@ -5,6 +5,8 @@
 D="$(readlink -f "$1")"; J="${2:-6}"; O="${3:-/tmp/benign-res}"
 cd /verif
 rm -rf "$O"; mkdir -p "$O"
+# run against a snapshot of the checker so that it can be rebuilt meanwhile
+if [ -z "${AMCHECK:-}" ]; then cp bin/amcheck "$O/amcheck.snapshot"; export AMCHECK="$O/amcheck.snapshot"; fi
 ALL=$(for n in $(seq -w 1 20); do echo -n " C$n"; done)
 find "$D" -name patch.diff | sort | while read f; do
   tag=$(echo "${f#$D/}" | sed 's#/patch.diff##; s#/#_#g')
